@@ -175,7 +175,10 @@ func GoType(c typeCtx, t *Type, from int, use func(pkg int) string) string {
 		if d.Pkg == from {
 			return d.Name + targs
 		}
-		return use(d.Pkg) + "." + d.Name + targs
+		if q := use(d.Pkg); q != "" {
+			return q + "." + d.Name + targs
+		}
+		return d.Name + targs
 	case "ptr":
 		return "*" + GoType(c, t.Elem, from, use)
 	case "slice":
